@@ -574,8 +574,11 @@ theorem dropWaiter_inv {s : State} {c key l : Nat} (h : Inv s)
 theorem stepS_inv (s : State) (op : Op) (h : Inv s) : Inv (stepS s op) := by
   cases op with
   | adv ms => exact inv_frame h rfl rfl rfl rfl rfl rfl (fun _ hx => hx)
+  | dropsvc => exact inv_frame h rfl rfl rfl rfl rfl rfl (fun _ hx => hx)
   | arrive c key sc cp =>
     simp only [stepS]
+    split
+    · exact h
     split
     · exact h
     · rename_i hc; exact arrive_inv sc cp h hc
@@ -777,8 +780,11 @@ theorem pollWaiter_tinv {s : State} {c l : Nat} (ht : TInv s) : TInv (pollWaiter
 theorem stepS_tinv (s : State) (op : Op) (h : Inv s) (ht : TInv s) : TInv (stepS s op) := by
   cases op with
   | adv ms => exact tinv_same (evs := []) ht rfl (by simp [stepS]) (by simp [calls]) (by simp [ended])
+  | dropsvc => exact tinv_same (evs := []) ht rfl (by simp [stepS]) (by simp [calls]) (by simp [ended])
   | arrive c key sc cp =>
     simp only [stepS]
+    split
+    · exact ht
     split
     · exact ht
     · unfold arrive
@@ -877,9 +883,9 @@ theorem stepS_drop_waiter {s : State} {c key l : Nat} (h : LiveWaiter s c key l)
   simp [stepS, h.1, h.2]
 
 theorem stepS_arrive_fresh {s : State} {c key : Nat} (sc : Step) (cp : Bool)
-    (hc : lookup s.role c = none) :
+    (hs : s.svcGone = false) (hc : lookup s.role c = none) :
     stepS s (.arrive c key sc cp) = arrive s c key sc cp := by
-  simp [stepS, hc]
+  simp [stepS, hc, hs]
 
 /-- a poll of a live leader either changes nothing (inner call not finished) or retires the leader -/
 theorem poll_leader_effect {s : State} {c key k : Nat} (h : LiveLeader s c key k) :
@@ -918,21 +924,21 @@ theorem drop_leader_effect {s : State} {c key k : Nat} (h : LiveLeader s c key k
 
 /-- a request that finds its key registered: no event, no inner call, it becomes a waiter of that leader -/
 theorem arrive_registered {s : State} {c key ldr : Nat} (sc : Step) (cp : Bool)
-    (hc : lookup s.role c = none) (hr : reg s key = some ldr) :
+    (hs : s.svcGone = false) (hc : lookup s.role c = none) (hr : reg s key = some ldr) :
     stepS s (.arrive c key sc cp) = joinWaiter s c key ldr := by
-  rw [stepS_arrive_fresh sc cp hc]; unfold arrive; rw [hr]
+  rw [stepS_arrive_fresh sc cp hs hc]; unfold arrive; rw [hr]
 
 /-- a request that finds its key unregistered leads a fresh inner call at once -/
 theorem arrive_free {s : State} {c key : Nat} (sc : Step)
-    (hc : lookup s.role c = none) (hr : reg s key = none) :
+    (hs : s.svcGone = false) (hc : lookup s.role c = none) (hr : reg s key = none) :
     stepS s (.arrive c key sc false) = lead s c key sc := by
-  rw [stepS_arrive_fresh sc false hc]; unfold arrive; rw [hr]; rfl
+  rw [stepS_arrive_fresh sc false hs hc]; unfold arrive; rw [hr]; rfl
 
 /-- … and if the inner service's `call()` itself panics, the key is unregistered again in that step -/
 theorem arrive_free_callPanics {s : State} {c key : Nat} (sc : Step)
-    (hc : lookup s.role c = none) (hr : reg s key = none) :
+    (hs : s.svcGone = false) (hc : lookup s.role c = none) (hr : reg s key = none) :
     stepS s (.arrive c key sc true) = leadPanic s c key := by
-  rw [stepS_arrive_fresh sc true hc]; unfold arrive; rw [hr]; rfl
+  rw [stepS_arrive_fresh sc true hs hc]; unfold arrive; rw [hr]; rfl
 
 /-- the three outcomes of polling a live waiter -/
 theorem poll_waiter_sent {s : State} {c key l : Nat} {r : Res} (h : LiveWaiter s c key l)
@@ -970,6 +976,7 @@ theorem stepS_role_eq (s : State) (op : Op) (hop : ∀ c key sc cp, op ≠ .arri
     (stepS s op).role = s.role := by
   cases op with
   | adv ms => rfl
+  | dropsvc => rfl
   | arrive c key sc cp => exact absurd rfl (hop c key sc cp)
   | poll c =>
     simp only [stepS]
@@ -993,6 +1000,8 @@ theorem stepS_role_mono (s : State) (op : Op) {x : Nat} {v : Role}
     simp only [stepS]
     split
     · exact hx
+    split
+    · exact hx
     · rename_i hc
       unfold arrive
       split
@@ -1004,6 +1013,7 @@ theorem stepS_role_mono (s : State) (op : Op) {x : Nat} {v : Role}
         · show lookup ((c, _) :: s.role) x = some v
           exact role_ext _ hc hx
   | adv ms => rw [stepS_role_eq s _ (by intro _ _ _ _ h; cases h)]; exact hx
+  | dropsvc => exact hx
   | poll c => rw [stepS_role_eq s _ (by intro _ _ _ _ h; cases h)]; exact hx
   | drop c => rw [stepS_role_eq s _ (by intro _ _ _ _ h; cases h)]; exact hx
 
@@ -1022,8 +1032,11 @@ theorem stepS_gone (s : State) (op : Op) (x : Nat) (hk : lookup s.role x ≠ non
     (hx : x ∈ (stepS s op).gone) : x ∈ s.gone ∨ op = .poll x ∨ op = .drop x := by
   cases op with
   | adv ms => exact Or.inl hx
+  | dropsvc => exact Or.inl hx
   | arrive c key sc cp =>
     simp only [stepS] at hx
+    split at hx
+    · exact Or.inl hx
     split at hx
     · exact Or.inl hx
     · rename_i hc
@@ -1085,8 +1098,11 @@ theorem stepS_chan_stable {s : State} (op : Op) {l : Nat} {ch : Chan} (h : Inv s
     · exact absurd (h2.mpr hg) hne
   cases op with
   | adv ms => exact hch
+  | dropsvc => exact hch
   | arrive c key' sc cp =>
     simp only [stepS]
+    split
+    · exact hch
     split
     · exact hch
     · rename_i hc
@@ -1155,6 +1171,8 @@ theorem stepS_serialUniq (s : State) (op : Op) (h : Inv s) (hu : SerialUniq s) :
     simp only [stepS]
     split
     · exact hu
+    split
+    · exact hu
     · rename_i hc
       unfold arrive
       split
@@ -1186,6 +1204,7 @@ theorem stepS_serialUniq (s : State) (op : Op) (h : Inv s) (hu : SerialUniq s) :
             · cases hw2; have := h.serialLt l1 key1 _ h1'; omega
             · exact hu l1 l2 key1 key2 k h1' h2'
   | adv ms => unfold SerialUniq; rw [stepS_role_eq s _ (by intro _ _ _ _ h; cases h)]; exact hu
+  | dropsvc => exact hu
   | poll c => unfold SerialUniq; rw [stepS_role_eq s _ (by intro _ _ _ _ h; cases h)]; exact hu
   | drop c => unfold SerialUniq; rw [stepS_role_eq s _ (by intro _ _ _ _ h; cases h)]; exact hu
 
